@@ -84,3 +84,18 @@ Definition run_jsonld (args : list bytes) : bytes :=
       end
   | _ => ERR
   end.
+
+(* jsonldq: the same for documents not written by the harness: !skip where the document leaves the modelled part *)
+Definition run_jsonldq (args : list bytes) : bytes :=
+  match args with
+  | [b; tree] =>
+      match xstr b, parse_json (S (length tree)) (split_on 44 tree) with
+      | Some base, Some (doc, []) =>
+          match jsonld_doc base doc with
+          | Some qs => join [59%N] (map jquad_out qs)
+          | None => s2b "!skip"
+          end
+      | _, _ => ERR
+      end
+  | _ => ERR
+  end.
